@@ -7,7 +7,7 @@
    C04's files are imported read-only and referred to by qualified names. *)
 From Coq Require Import List ZArith Bool Reals Lra.
 From T4V Require Import Base.Scalar C03.Vec C03.Model C03.Convert C03.Spec C03.SpecT4.
-From T4V Require C04.Vec C04.Model C04.Spec C04.ProofsMatrix C04.ProofsCard.
+From T4V Require C04.Vec C04.Model C04.Spec C04.ProofsMatrix C04.ProofsMatrix5 C04.ProofsCard.
 Import ListNotations.
 Open Scope R_scope.
 
@@ -167,4 +167,115 @@ Proof.
   exists b. split; [exact Hrot|]. split; [exact Hag|]. intros Hc.
   split; [exact (proj1 Hrot)|]. right. right. right. split; [exact Hc|].
   exists pat. split; [exact E|]. apply abbreviated_card; [exact E | exact (proj1 Hrot) | exact Hc].
+Qed.
+
+(* ================= round 3: the remaining transformation sources ============ *)
+(* whatever the source, once the converter's twelve numbers are o ++ b with an
+   orthonormal clipped b, card_gives holds (the plain 12-entry card gives them) *)
+Lemma card_gives_canonical (o : S4.R3) (b : V4.M3 R) :
+  S4.rows_orthonormal b -> T4V.C04.ProofsMatrix.clip_ok_m b ->
+  card_gives (V4.vlist o ++ V4.mlist b) o b.
+Proof.
+  intros Hr Hc. split; [exact Hr|]. left. split; [exact Hc|]. left.
+  apply (T4V.C04.ProofsCard.tr_card_12 _ _ Hr Hc).
+Qed.
+
+(* generic: from a C04 "reproduces" statement to the card *)
+Lemma abbreviated_from_reproduces (o : S4.R3) (pat : V4.M3 (option R)) :
+  (exists b, M4.normalize_matrix RS (V4.mlist pat) = M4.Ok (V4.mlist b) /\ S4.rotation b /\
+             S4.agrees pat b) ->
+  exists b, S4.rotation b /\ S4.agrees pat b /\
+    (T4V.C04.ProofsMatrix.clip_ok_m b ->
+     M4.tr_card RS false (map Some (V4.vlist o) ++ V4.mlist pat) = M4.Ok (V4.vlist o ++ V4.mlist b) /\
+     card_gives (V4.vlist o ++ V4.mlist b) o b).
+Proof.
+  intros (b & E & Hrot & Hag). exists b. split; [exact Hrot|]. split; [exact Hag|]. intros Hc.
+  split; [apply abbreviated_card; [exact E | exact (proj1 Hrot) | exact Hc]|].
+  apply card_gives_canonical; [exact (proj1 Hrot) | exact Hc].
+Qed.
+
+(* two COLUMNS given (six entries) *)
+Theorem six_entry_cols_card (i : nat) (o c0 c1 : S4.R3) :
+  (i < 3)%nat -> S4.norm2 c0 = 1 -> S4.norm2 c1 = 1 -> S4.dot c0 c1 = 0 ->
+  let pat := V4.transpose (M4.place3 i T4V.C04.ProofsMatrix.none3 (T4V.C04.ProofsMatrix.somev c0)
+                                     (T4V.C04.ProofsMatrix.somev c1)) in
+  exists b, S4.rotation b /\ S4.agrees pat b /\
+    (T4V.C04.ProofsMatrix.clip_ok_m b ->
+     M4.tr_card RS false (map Some (V4.vlist o) ++ V4.mlist pat) = M4.Ok (V4.vlist o ++ V4.mlist b) /\
+     card_gives (V4.vlist o ++ V4.mlist b) o b).
+Proof.
+  intros Hi H0 H1 H01 pat. apply abbreviated_from_reproduces.
+  exact (T4V.C04.ProofsMatrix.normalize_matrix_6_cols i c0 c1 Hi H0 H1 H01).
+Qed.
+
+(* one unit ROW / one unit COLUMN given (three entries) *)
+Theorem three_entry_row_card (i : nat) (o r : S4.R3) :
+  (i < 3)%nat -> S4.norm2 r = 1 ->
+  let pat := M4.place3 i (T4V.C04.ProofsMatrix.somev r) T4V.C04.ProofsMatrix.none3
+                       T4V.C04.ProofsMatrix.none3 in
+  exists b, S4.rotation b /\ S4.agrees pat b /\
+    (T4V.C04.ProofsMatrix.clip_ok_m b ->
+     M4.tr_card RS false (map Some (V4.vlist o) ++ V4.mlist pat) = M4.Ok (V4.vlist o ++ V4.mlist b) /\
+     card_gives (V4.vlist o ++ V4.mlist b) o b).
+Proof.
+  intros Hi H0 pat. apply abbreviated_from_reproduces.
+  exact (T4V.C04.ProofsMatrix.normalize_matrix_3_rows i r Hi H0).
+Qed.
+
+Theorem three_entry_col_card (i : nat) (o c : S4.R3) :
+  (i < 3)%nat -> S4.norm2 c = 1 ->
+  let pat := V4.transpose (M4.place3 i (T4V.C04.ProofsMatrix.somev c) T4V.C04.ProofsMatrix.none3
+                                     T4V.C04.ProofsMatrix.none3) in
+  exists b, S4.rotation b /\ S4.agrees pat b /\
+    (T4V.C04.ProofsMatrix.clip_ok_m b ->
+     M4.tr_card RS false (map Some (V4.vlist o) ++ V4.mlist pat) = M4.Ok (V4.vlist o ++ V4.mlist b) /\
+     card_gives (V4.vlist o ++ V4.mlist b) o b).
+Proof.
+  intros Hi H0 pat. apply abbreviated_from_reproduces.
+  exact (T4V.C04.ProofsMatrix.normalize_matrix_3_cols i c Hi H0).
+Qed.
+
+(* five entries: one unit row and one unit column sharing their common entry
+   (Eulerian completion) *)
+Theorem five_entry_card (ir ic : nat) (o row col : S4.R3) :
+  (ir < 3)%nat -> (ic < 3)%nat -> S4.norm2 row = 1 -> S4.norm2 col = 1 ->
+  V4.vget ic row = V4.vget ir col ->
+  let pat := T4V.C04.ProofsMatrix5.pat5 ir ic row col in
+  exists b, S4.rotation b /\ S4.agrees pat b /\
+    (T4V.C04.ProofsMatrix.clip_ok_m b ->
+     M4.tr_card RS false (map Some (V4.vlist o) ++ V4.mlist pat) = M4.Ok (V4.vlist o ++ V4.mlist b) /\
+     card_gives (V4.vlist o ++ V4.mlist b) o b).
+Proof.
+  intros Hir Hic Hr Hc Hs pat. apply abbreviated_from_reproduces.
+  exact (T4V.C04.ProofsMatrix5.normalize_matrix_5 ir ic row col Hir Hic Hr Hc Hs).
+Qed.
+
+(* FILL=u (n): the universe is placed by the transformation of card n *)
+Theorem fill_by_number (l : list R) (o : S4.R3) (b : V4.M3 R) star (n : R) trs trid :
+  card_gives l o b -> M4.lookup trid trs = M4.Ok l ->
+  M4.parse_fill_tr RS star [n] trs trid = M4.Ok l.
+Proof.
+  intros Hc Hl. destruct (card_transformation l o b Hc) as (E & _).
+  destruct l as [|? [|? [|? [|? [|? [|? [|? [|? [|? [|? [|? [|? [|? ?]]]]]]]]]]]]]; try discriminate.
+  unfold M4.parse_fill_tr, M4.parse_kw_tr. cbn [List.length]. rewrite Hl. reflexivity.
+Qed.
+
+(* starred inline forms *TRCL=(o angles) and *FILL=u (o angles): the cosines *)
+Theorem starred_inline (o : S4.R3) (ang : V4.M3 R) trs trid :
+  let b := V4.vmap (V4.vmap (fun a => cos (a * PI / 180))) ang in
+  S4.rows_orthonormal b -> T4V.C04.ProofsMatrix.clip_ok_m b ->
+  M4.parse_trcl RS true (V4.vlist o ++ V4.mlist ang) trs trid = M4.Ok (V4.vlist o ++ V4.mlist b) /\
+  M4.parse_fill_tr RS true (V4.vlist o ++ V4.mlist ang) trs trid = M4.Ok (V4.vlist o ++ V4.mlist b) /\
+  card_gives (V4.vlist o ++ V4.mlist b) o b.
+Proof.
+  intros b Hr Hc.
+  pose proof (T4V.C04.ProofsCard.normalize_transform_12 o b Hr Hc) as E.
+  assert (K : forall flag, M4.parse_kw_tr RS flag true (V4.vlist o ++ V4.mlist ang) trs trid
+                           = M4.Ok (V4.vlist o ++ V4.mlist b)).
+  { intros flag. rewrite <- E. subst b.
+    destruct o as [o1 o2 o3], ang as [[a1 a2 a3] [a4 a5 a6] [a7 a8 a9]].
+    unfold M4.parse_kw_tr.
+    cbv [V4.mlist V4.vlist V4.vmap V4.vx V4.vy V4.vz app List.length firstn skipn map].
+    rewrite !T4V.C04.ProofsCard.to_cos_deg. reflexivity. }
+  split; [apply K|]. split; [apply K|]. now apply card_gives_canonical.
 Qed.
